@@ -75,7 +75,12 @@ def cases(tier, seed):
     out.append({"id": "routing-shared-callable", "kind": "routing", "fv": dict(family.BASE), "seed": seed, "sim": True, "shared_callable": True})
     # a KEYWORD-ONLY parameter with a Python default: it is a parameter like any other (template + routing)
     out.append({"id": "routing-keyword-only-parameter", "kind": "routing", "fv": dict(family.BASE), "seed": seed, "sim": True, "shared_callable": True, "kwonly": True})
-    return out
+    seen, uniq = set(), []
+    for c in out:  # explicit members may also be members of Family_2 in the thorough tier
+        if c["id"] not in seen:
+            seen.add(c["id"])
+            uniq.append(c)
+    return uniq
 
 
 def cost(case):
